@@ -15,7 +15,8 @@ pub const MULT: f32 = 1_000_000.0;
 
 /// qualifying claims: (q, t) -> (count, weight) where weight = sum over counted distances of (max seen - d)
 pub fn claims(stream: &[Elt], max_distance: f32, min_votes: usize) -> BTreeMap<(u64, u64), (usize, f64)> {
-    let mut max_seen = -1.0f32;
+    // the largest distance present in the stream (no artificial floor)
+    let mut max_seen = f32::NEG_INFINITY;
     for e in stream {
         if let Some(d) = e.d {
             if d > max_seen {
